@@ -25,7 +25,7 @@ ASSUMPTIONS = ["where no valid argument exists in the state (truncate of an empt
                "snapshot compares file content, kind and permission bits; mtime is ignored"]
 EXHAUSTIVE = "the full kind x state x metadata x how x mutator matrix (no preceding history)"
 KINDS = {'Array': ['empty', 'nonempty', 'empty2d', 'zerotail'], 'Ragged': ['nosub', 'emptyvalues', 'nonempty']}
-HOWS = ['default-open', 'create-r', 'assign', 'r-r+-r', 'after-r+block', 'reassign-r-after-metadata-r+', 'after-nested-mixed-blocks', 'switched-inside-open-context']
+HOWS = ['via-copy', 'default-open', 'create-r', 'assign', 'r-r+-r', 'after-r+block', 'reassign-r-after-metadata-r+', 'after-nested-mixed-blocks', 'switched-inside-open-context']
 MUTS = {'Array': ['setitem', 'append', 'iterappend', 'truncate', 'delete', 'md.update', 'md.setitem', 'md.pop', 'md.popdefault', 'md.popitem', 'md.del'],
         'Ragged': ['append', 'append0', 'iterappend', 'truncate', 'delete', 'md.update', 'md.setitem', 'md.pop', 'md.popdefault', 'md.popitem', 'md.del']}
 MUST_HIT = [f'how:{h}' for h in HOWS] + [f'Array:{s}' for s in KINDS['Array']] + [f'Ragged:{s}' for s in KINDS['Ragged']] + \
@@ -123,7 +123,14 @@ def execute(ctx, spec):
                 h = _create(kind, state, meta, path, 'r')
             else:
                 _create(kind, state, meta, path, 'r+')
-                if how == 'default-open':
+                if how == 'via-copy':
+                    # a copy made with the default (or an explicit) read-only access mode
+                    src = _open(kind, path, 'r+')
+                    path = os.path.join(d, 'thecopy.darr')
+                    kw_ = {'chunklen': 1} if state == 'zerotail' else {}     # (the default chunk length is computed by dividing by the row size)
+                    h = src.copy(path, **kw_) if (len(mut) + len(state)) % 2 else src.copy(path, accessmode='r', **kw_)
+                    src = None
+                elif how == 'default-open':
                     # preceding history happens through another handle
                     h0 = _open(kind, path, 'r+')
                     _pre(out, kind, state, h0, pre)
